@@ -18,6 +18,7 @@ import (
 	"context"
 	"os"
 	"sort"
+	"strings"
 	"syscall"
 	"time"
 
@@ -59,12 +60,25 @@ func run(r *evid.Run) {
 		r.Set("phase_"+name, map[string]float64{"wall_s": time.Since(t0).Seconds(), "cpu_s": cpuSeconds() - c0})
 		t0, c0 = time.Now(), cpuSeconds()
 	}
-	hostileTexts(r, dst)
-	phase("A1")
-	positionGrid(r, dst)
-	phase("A2")
-	setOrder(r, dst)
-	phase("A3")
+	// VERIF_C20_ONLY=A1,A3,... restricts the run to some spaces (debugging / mutant triage only; the run is
+	// then marked incomplete)
+	only := os.Getenv("VERIF_C20_ONLY")
+	want := func(part string) bool { return only == "" || strings.Contains(","+only+",", ","+part+",") }
+	if only != "" {
+		r.Incomplete("VERIF_C20_ONLY=" + only + ": partial run")
+	}
+	if want("A1") {
+		hostileTexts(r, dst)
+		phase("A1")
+	}
+	if want("A2") {
+		positionGrid(r, dst)
+		phase("A2")
+	}
+	if want("A3") {
+		setOrder(r, dst)
+		phase("A3")
+	}
 
 	perFormat := map[string]int64{}
 	for i, f := range formats {
@@ -83,14 +97,17 @@ func run(r *evid.Run) {
 	r.Set("F7_file_property_cases", dst.f7File.Load())
 	r.Set("F7_message_cases", dst.f7Msg.Load())
 	for i, f := range formats {
+		if only != "" {
+			break
+		}
 		if dst.perFormat[i].Load() == 0 {
 			r.Incomplete("vacuous: no rendering compared for format " + f)
 		}
 	}
-	if dst.deduped.Load() == 0 || dst.reordered.Load() == 0 || dst.multiSuite.Load() == 0 {
+	if only == "" && (dst.deduped.Load() == 0 || dst.reordered.Load() == 0 || dst.multiSuite.Load() == 0) {
 		r.Incomplete("vacuous: set-order space exercised no de-duplication / no reordering / no multi-suite JUnit document")
 	}
-	if dst.needJSONEscape.Load() == 0 || dst.needXMLEscape.Load() == 0 || dst.needWorkflowEscape.Load() == 0 {
+	if only == "" && (dst.needJSONEscape.Load() == 0 || dst.needXMLEscape.Load() == 0 || dst.needWorkflowEscape.Load() == 0) {
 		r.Incomplete("vacuous: no text needing escaping")
 	}
 	if r.Expired() {
@@ -104,10 +121,14 @@ func run(r *evid.Run) {
 	}
 	defer os.RemoveAll(scratch)
 	cst := &cliStats{}
-	cliPlanted(ctx, r, cst, scratch)
-	phase("B_planted")
-	cliOperational(ctx, r, cst, scratch)
-	phase("B_operational")
+	if want("B1") {
+		cliPlanted(ctx, r, cst, scratch)
+		phase("B_planted")
+	}
+	if want("B2") {
+		cliOperational(ctx, r, cst, scratch)
+		phase("B_operational")
+	}
 
 	r.Set("B_cli_runs", cst.runs.Load())
 	r.Set("B_workspaces", cst.workspaces.Load())
@@ -137,7 +158,7 @@ func run(r *evid.Run) {
 	}
 	cst.mu.Unlock()
 	r.Set("B_runs_per_command_and_format", per)
-	if !r.Expired() {
+	if !r.Expired() && only == "" {
 		if cst.exit0.Load() == 0 || cst.exit100.Load() == 0 || cst.exitOther.Load() == 0 {
 			r.Incomplete("vacuous: an exit-status class was never observed")
 		}
